@@ -8,9 +8,9 @@ import (
 
 	"github.com/junioryono/godi/v4"
 	godiecho "github.com/junioryono/godi/v4/echo"
-	"github.com/labstack/echo/v4"
 	"github.com/junioryono/godi/v4/zzverif/kit"
 	"github.com/junioryono/godi/v4/zzverif/vrt"
+	"github.com/labstack/echo/v4"
 )
 
 // H_EchoConc: two requests in flight at once through one middleware instance;
